@@ -3,7 +3,7 @@
    make_structure_from_block: model switch with find_or_add_model, chain switch, find_or_add_residue).
    Entities, assemblies, connections, secondary structure, sequences, numbers (%.9g) and the PDB route are covered by
    the end-to-end oracles of props/C07.py only (no theorem). *)
-From GV Require Import Base.Str Pdb.AtomSite Pdb.AtomSiteProofs.
+From GV Require Import Base.Str Pdb.AtomSite Pdb.AtomSiteProofs Pdb.Subchain Pdb.SubchainProofs.
 Local Open Scope Z_scope.
 
 (* WFs: model numbers pairwise distinct, adjacent chains of a model differ in name, residues of one chain have pairwise
@@ -20,3 +20,40 @@ Proof.
   vm_compute. discriminate.
 Qed.
 Print Assumptions C07_equal_ids_merge_refuted.
+
+(* ------------------------------------------------------------------------------------------------------------
+   Sub-chains (label_asym_id): model of assign_subchain_names / assign_subchains of src/polyheur.cpp, the naming
+   shared by the PDB and mmCIF routes (Pdb/Subchain.v; compared with gemmi on every run, command "subch"). *)
+
+(* the suffix of the k-th non-polymer residue decodes back to k: for EVERY k >= 1 (1..9, 0, 01..0Z, 10, 11, ... in
+   base 36 of any length) *)
+Theorem C07_nonpolymer_suffix_decodes : forall k, 1 <= k -> np_decode (np_suffix k) = k.
+Proof. exact np_decode_suffix. Qed.
+Print Assumptions C07_nonpolymer_suffix_decodes.
+
+(* chain name + "x" + suffix identifies the chain name and the residue class, for every chain name (also names that
+   contain 'x' or end in "xp") and every counter *)
+Theorem C07_subchain_name_injective : forall n1 n2 c1 c2, class_ok c1 -> class_ok c2 ->
+  n1 ++ 120 :: class_suffix c1 = n2 ++ 120 :: class_suffix c2 -> n1 = n2 /\ c1 = c2.
+Proof. exact subchain_name_injective. Qed.
+Print Assumptions C07_subchain_name_injective.
+
+(* what assign_subchains writes is the name of the class the model assigns (tie between the two formulations) *)
+Theorem C07_model_names_are_class_names : forall chains m,
+  flat_names (model_names chains m) = map pair_name (model_classes chains m).
+Proof. exact model_names_classes. Qed.
+Print Assumptions C07_model_names_are_class_names.
+
+(* every non-polymer residue of a model gets a sub-chain of its own: any number of chains and residues, chains that
+   share a name (they share the counter), any chain names *)
+Theorem C07_nonpolymer_subchains_distinct : forall chains,
+  NoDup (map pair_name (filter is_np_pair (model_classes chains []))).
+Proof. exact model_nonpolymer_names_distinct. Qed.
+Print Assumptions C07_nonpolymer_subchains_distinct.
+
+(* non-vacuity: the suffixes at the boundaries of the numbering scheme *)
+Theorem C07_suffix_examples :
+  map np_suffix [1; 9; 10; 11; 45; 46; 47; 1305; 1306] =
+  [[49]; [57]; [48]; [48; 49]; [48; 90]; [49; 48]; [49; 49]; [90; 90]; [49; 48; 48]].
+Proof. exact np_suffix_values. Qed.
+Print Assumptions C07_suffix_examples.
